@@ -13,6 +13,7 @@ import (
 	"go/parser"
 	"go/token"
 	"go/types"
+	"os"
 	"sort"
 	"strings"
 	"sync"
@@ -654,6 +655,9 @@ func allOps() []string {
 	for _, s := range snippets {
 		ops = append(ops, "snippet:"+s.op)
 	}
+	for _, f := range opForms {
+		ops = append(ops, "snippet:gen-op:"+f.name)
+	}
 	return ops
 }
 
@@ -669,6 +673,50 @@ func config() *progen.Config {
 		}
 	}
 	return cfg
+}
+
+// generated snippets: one operation applied to operands of drawn types; go/types
+// decides which combinations are ill-typed (the others are not judged).
+var opndTypes = []string{"int", "uint8", "float64", "bool", "string", "[]int", "[3]int", "*[3]int", "*[]int", "**[3]int", "[]string", "[2][]int",
+	"map[string]int", "*map[string]int", "chan int", "<-chan int", "chan<- int", "*chan int", "struct{ a int }", "*struct{ a int }", "func()", "func(int) int",
+	"interface{}", "error", "*int", "*string", "complex128", "NS", "*NS", "NA", "*NA", "NM", "*NM", "NI", "NP"}
+
+const opndDecls = `type NS []int
+	type NA [3]int
+	type NM map[string]int
+	type NI int
+	type NP *[3]int
+`
+
+// each form uses x (of the first type) and possibly y (of the second one)
+var opForms = []struct{ name, src string }{
+	{"len", "_ = len(x)"}, {"cap", "_ = cap(x)"}, {"append", "_ = append(x, y)"}, {"append-spread", "_ = append(x, y...)"}, {"copy", "_ = copy(x, y)"},
+	{"delete", "delete(x, y)"}, {"close", "close(x)"}, {"clear", "clear(x)"}, {"min", "_ = min(x, y)"}, {"max", "_ = max(x, y)"},
+	{"real", "_ = real(x)"}, {"imag", "_ = imag(x)"}, {"complex", "_ = complex(x, y)"}, {"new-value", "_ = new(x)"}, {"recv", "_ = <-x"}, {"send", "x <- y"},
+	{"range", "for range x {\n\t}"}, {"range-kv", "for k, v := range x {\n\t\t_, _ = k, v\n\t}"}, {"index", "_ = x[y]"}, {"slice", "_ = x[:1]"}, {"slice3", "_ = x[0:1:1]"},
+	{"deref", "_ = *x"}, {"call", "x()"}, {"call-arg", "_ = x(y)"}, {"field", "_ = x.a"}, {"neg", "_ = -x"}, {"not", "_ = !x"}, {"cpl", "_ = ^x"}, {"inc", "x++"},
+	{"add", "_ = x + y"}, {"and", "_ = x & y"}, {"shift", "_ = x << y"}, {"less", "_ = x < y"}, {"equal", "_ = x == y"}, {"logic", "_ = x && y"},
+	{"assign", "x = y"}, {"op-assign", "x += y"}, {"conv", "_ = NI(x)"}, {"conv-slice-array", "_ = NA(x)"}, {"assert", "_ = x.(int)"}, {"typeswitch", "switch x.(type) {\n\t}"},
+	{"if-cond", "if x {\n\t}"}, {"switch-tag", "switch x {\n\tcase y:\n\t}"}, {"go", "go x()"}, {"defer", "defer x()"}, {"addr-of-call", "_ = &x()"}, {"make", "_ = make(NS, x)"}, {"make-cap", "_ = make(NS, 1, y)"},
+	{"array-len", "var a [3]int\n\t_ = a[x]"}, {"map-key", "m := map[NS]int{}\n\t_ = m"}, {"nil-compare", "_ = x == nil"}, {"nil-assign", "x = nil"},
+}
+
+func genOpSnippet(t *rapid.T) snippet {
+	f := opForms[rapid.IntRange(0, len(opForms)-1).Draw(t, "opform")]
+	tx := opndTypes[rapid.IntRange(0, len(opndTypes)-1).Draw(t, "tx")]
+	ty := tx
+	if rapid.IntRange(0, 2).Draw(t, "samety") != 0 {
+		ty = opndTypes[rapid.IntRange(0, len(opndTypes)-1).Draw(t, "ty")]
+	}
+	if cellKnown(f.name, tx, ty) || typeCheck(matrixCase(f.name, tx, ty).Src).err == nil {
+		// a recorded finding covers this cell, or the operation is well-typed (the
+		// place where it lands could still make the program ill-typed for another
+		// reason: missing return, fallthrough not last): an always ill-typed
+		// snippet instead
+		return snippet{"gen-op:len", "{\n\tvar x int\n\t_ = len(x)\n}"}
+	}
+	src := "{\n\t" + opndDecls + "\tvar x " + tx + "\n\tvar y " + ty + "\n\t_, _ = x, y\n\t" + f.src + "\n}"
+	return snippet{"gen-op:" + f.name, src}
 }
 
 // genMutant draws a program and one mutation. ok=false: nothing applicable.
@@ -706,8 +754,20 @@ func genMutant(t *rapid.T, cfg *progen.Config, skip map[string]bool) (*Case, str
 			}
 		}
 		s := cand[rapid.IntRange(0, len(cand)-1).Draw(t, "snippet")]
+		if rapid.IntRange(0, 2).Draw(t, "genop?") != 0 {
+			// an operation applied to operands of drawn types
+			if g := genOpSnippet(t); !skip["snippet:"+g.op] {
+				s = g
+			}
+		}
 		b := blocks[rapid.IntRange(0, len(blocks)-1).Draw(t, "block")]
 		pos := rapid.IntRange(0, len(b.b.List)).Draw(t, "pos")
+		if pos == len(b.b.List) && pos > 0 && vf.IsKnown("C12", "missing-return-accepted") {
+			// a statement after the final return of a function makes it end without
+			// terminating statement ("missing return"), which the interpreter
+			// accepts: a recorded finding
+			pos--
+		}
 		st := parseStmt(s.src)
 		b.b.List = append(b.b.List[:pos:pos], append([]ast.Stmt{st}, b.b.List[pos:]...)...)
 		return &Case{Src: render(c), Operator: "snippet:" + s.op, Context: b.ctx}, src, true
@@ -760,12 +820,125 @@ func clip(s string) string {
 	return s
 }
 
+// cellKnown: the cell belongs to a recorded finding (see knownCells).
+func cellKnown(form, tx, ty string) bool {
+	for key, match := range knownCells {
+		if vf.IsKnown("C12", key) && match(form, tx, ty) {
+			return true
+		}
+	}
+	return false
+}
+
+// knownCells maps a known-finding key to the cells of the matrix it covers.
+var knownCells = map[string]func(form, tx, ty string) bool{
+	"cell:switch-on-uncomparable-types": func(form, tx, ty string) bool {
+		return form == "switch-tag" && (uncomparableT[tx] || uncomparableT[ty])
+	},
+	"cell:pointer-to-local-defined-type-mixed": func(form, tx, ty string) bool {
+		if form != "assign" && form != "equal" && form != "switch-tag" {
+			return false
+		}
+		return tx != ty && ptrGroup[tx] != 0 && ptrGroup[tx] == ptrGroup[ty]
+	},
+	"cell:arithmetic-with-interface-operand": func(form, tx, ty string) bool {
+		return (form == "add" || form == "op-assign" || form == "and") && ty == "interface{}"
+	},
+	"cell:append-elem-of-defined-int-type": func(form, tx, ty string) bool {
+		return form == "append" && ty == "NI" && (tx == "[]int" || tx == "NS")
+	},
+	"cell:impossible-assertion-accepted": func(form, tx, ty string) bool {
+		return form == "assert" && tx == "error"
+	},
+}
+
+var uncomparableT = map[string]bool{"[]int": true, "[]string": true, "[2][]int": true, "map[string]int": true, "func()": true, "func(int) int": true, "NS": true, "NM": true}
+
+var ptrGroup = map[string]int{"*[]int": 1, "*NS": 1, "*[3]int": 2, "*NA": 2, "NP": 2, "*map[string]int": 3, "*NM": 3}
+
+// matrixCase is one cell of the operation x operand types matrix in a fixed
+// minimal program.
+func matrixCase(form, tx, ty string) *Case {
+	var src string
+	for _, f := range opForms {
+		if f.name == form {
+			src = f.src
+		}
+	}
+	body := "\t" + opndDecls + "\tvar x " + tx + "\n\tvar y " + ty + "\n\t_, _ = x, y\n\t" + src + "\n"
+	return &Case{Src: "package main\n\nimport (\n\t\"fmt\"\n)\n\nfunc main() {\n\tfmt.Println(\"MAIN\")\n" + body + "}\n", Operator: "snippet:gen-op:" + form, Context: "matrix:" + tx + "|" + ty}
+}
+
+// runMatrix enumerates the whole matrix (development aid and thorough tier):
+// every cell go/types rejects must be rejected by the interpreter.
+func runMatrix(ctx *vf.Ctx, full bool, skip map[string]bool, report func(c *Case, sig, msg string)) {
+	k := 0
+	seed := int(((ctx.Seed % 8) + 8) % 8)
+	for _, f := range opForms {
+		if skip["snippet:gen-op:"+f.name] {
+			continue
+		}
+		usesY := strings.Contains(strings.ReplaceAll(f.src, "type", ""), "y")
+		for _, tx := range opndTypes {
+			tys := opndTypes
+			if !usesY {
+				tys = []string{"int"}
+			}
+			for _, ty := range tys {
+				k++
+				if k%ctx.NShards != ctx.Shard {
+					continue
+				}
+				if !full && usesY && (k/ctx.NShards)%8 != seed {
+					// quick tier: all the one-operand cells, one eighth (chosen by the
+					// seed) of the two-operand cells
+					continue
+				}
+				if cellKnown(f.name, tx, ty) {
+					ctx.Excluded("matrix-cell-known")
+					continue
+				}
+				c := matrixCase(f.name, tx, ty)
+				sig, msg, skipped := c.check()
+				if skipped {
+					ctx.Class("matrix-well-typed")
+					continue
+				}
+				ctx.Eval()
+				ctx.Class("matrix-ill-typed")
+				ctx.Nontrivial(c.Src)
+				if sig != "" {
+					report(c, sig, msg)
+				}
+			}
+		}
+	}
+}
+
 func run(ctx *vf.Ctx) {
+	if os.Getenv("VERIF_C12_MATRIX") != "" {
+		out, _ := os.Create(fmt.Sprintf("%s/scratch/c12matrix-%d.jsonl", vf.Root, ctx.Shard))
+		defer out.Close()
+		runMatrix(ctx, true, nil, func(c *Case, sig, msg string) {
+			b, _ := json.Marshal(map[string]string{"op": c.Operator, "ctx": c.Context, "sig": sig, "msg": msg})
+			out.Write(append(b, '\n'))
+		})
+		ctx.DoneN(1)
+		return
+	}
 	cfg := config()
 	skip := knownOps()
 	for op := range skip {
 		ctx.Excluded(op)
 	}
+	// the operation x operand types matrix, enumerated (not drawn)
+	runMatrix(ctx, ctx.Tier == "thorough", skip, func(c *Case, sig, msg string) {
+		if ctx.Survey {
+			ctx.Class("survey-fail:" + sig)
+			return
+		}
+		ctx.ReportViolation(sig, msg, c)
+	})
 	ctx.Rapid("mutants", 0, ctx.Cases, 45*time.Second, func(t *rapid.T) {
 		c, orig, ok := genMutant(t, cfg, skip)
 		ctx.Done()
@@ -824,7 +997,7 @@ func init() {
 	vf.Register(&vf.Check{
 		ID:    "C12",
 		Level: "exploration",
-		Rule: "case = a well-typed program from internal/progen instrumented so that package initialisation, init and the first statement of main print, broken by ONE mutation: either an AST operator at a drawn site (operand/assignment/argument/return/var-init type swap, argument and result count, undefined name/field/method, out-of-range constant in assignment/var/argument position, non-boolean for condition, composite-literal duplicate/unknown/mixed/too-few/too-many/element-type/array-bounds/map-key) or an ill-typed statement snippet (builtin misuse, channel direction, invalid conversion, shift of float, uncomparable comparison, non-integer index, interface not implemented, ...) inserted at a drawn position of a drawn block; a mutant is judged only if go/types rejects it; oracle: the interpreter returns an error and Options.Stdout stays empty; the unmodified program must start normally; every judged mutant is non-trivial, distinct by source",
+		Rule:  "case = a well-typed program from internal/progen instrumented so that package initialisation, init and the first statement of main print, broken by ONE mutation: either an AST operator at a drawn site (operand/assignment/argument/return/var-init type swap, argument and result count, undefined name/field/method, out-of-range constant in assignment/var/argument position, non-boolean for condition, composite-literal duplicate/unknown/mixed/too-few/too-many/element-type/array-bounds/map-key) or an ill-typed statement snippet (builtin misuse, channel direction, invalid conversion, shift of float, uncomparable comparison, non-integer index, interface not implemented, ...) inserted at a drawn position of a drawn block; a mutant is judged only if go/types rejects it; oracle: the interpreter returns an error and Options.Stdout stays empty; the unmodified program must start normally; every judged mutant is non-trivial, distinct by source",
 		Assumptions: []string{
 			"go/types of the installed toolchain is the reference for ill-typedness",
 			"mutation classes stay within the classes the property lists (unused variables/imports, missing return, duplicate switch cases are not generated)",
